@@ -24,6 +24,7 @@ type PFile struct {
 	Enc     string
 	Content []byte
 	Marker  string
+	Link    string // "": a regular file; "rel" / "abs": a symbolic link (relative / absolute target) to a file holding the content, next to it
 }
 
 // specNamed reports whether the cache must consider this entry: a .json/.yaml
@@ -100,6 +101,10 @@ func (p *Pop) newValidFile(r *rand.Rand, phys int, name string) *PFile {
 		f.Enc = "yaml"
 	}
 	f.Content = specBytes(f.Spec, f.Enc)
+	if !strings.Contains(name, "/") && chance(r, 8) {
+		// the Spec file is a symbolic link, as tools that keep one link per file make them
+		f.Link = pickStr(r, "rel", "abs")
+	}
 	return f
 }
 
@@ -258,6 +263,15 @@ func (p *Pop) writeFile(f *PFile) {
 		must(os.WriteFile(path, f.Content, 0o000))
 		must(os.Chmod(path, 0o000))
 	default:
+		if f.Link != "" && f.specNamed() {
+			data := "." + filepath.Base(path) + ".linked-data"
+			must(os.WriteFile(filepath.Join(filepath.Dir(path), data), f.Content, 0o644))
+			if f.Link == "abs" {
+				data = filepath.Join(filepath.Dir(path), data)
+			}
+			must(os.Symlink(data, path))
+			return
+		}
 		must(os.WriteFile(path, f.Content, 0o644))
 	}
 }
@@ -350,6 +364,9 @@ func (p *Pop) Step(r *rand.Rand) string {
 			}
 			if p.find(d, name) >= 0 {
 				continue
+			}
+			if f.Link == "rel" && d != f.Phys {
+				continue // (a relative link moved to another directory would dangle: not the case at hand)
 			}
 			oldPath := p.path(f)
 			nf := *f
